@@ -427,10 +427,17 @@ def worker(job):
     import warnings
     warnings.simplefilter('ignore')
     part = common.Part()
+    if 'replay' in job and job['replay'].get('crawl'):
+        from checks import c16b_crawl
+        c16b_crawl.run_case(job['replay'], part)
+        return part.dump()
     if 'replay' in job:
         run_case(job['replay'], part)
         return part.dump()
     rng = random.Random(job['seed'])
+    from checks import c16b_crawl
+    for n in range(job.get('n_crawls', 0)):
+        c16b_crawl.run_case(c16b_crawl.gen_case(rng), part)
     for n in range(job['n']):
         case = gen_case(rng)
         run_case(case, part)
@@ -454,14 +461,15 @@ def main():
     else:
         total = int((200000 if check.thorough else 25600) * check.scale)
         nj = check.jobs * (4 if check.thorough else 1)
-        jobs = [{'seed': check.seed * 1000003 + i, 'n': max(1, total // nj)} for i in range(nj)]
+        crawls = int((4000 if check.thorough else 160) * check.scale)
+        jobs = [{'seed': check.seed * 1000003 + i, 'n': max(1, total // nj), 'n_crawls': max(1, crawls // nj)} for i in range(nj)]
         res = par.run_jobs(target, jobs, check.jobs, timeout=7200 if check.thorough else 900)
     for r in res:
         if '_error' in r:
             check.note_inconclusive('worker: ' + r['_error'] + ' ' + r.get('_stderr', '')[-400:])
         else:
             check.merge(r)
-    check.finish(required_counters=() if check.args.replay else ('requests_captured', 'host_field_correct'))
+    check.finish(required_counters=() if check.args.replay else ('requests_captured', 'host_field_correct', 'crawls_with_requests_to_several_origins'))
 
 
 if __name__ == '__main__':
